@@ -397,6 +397,7 @@ impl FatVolume {
         dir_cluster: ClusterId,
         name: ShortFileName,
         attributes: Attributes,
+        first_cluster: ClusterId,
     ) -> Result<DirEntry, Error<D::Error>>
     where
         D: BlockDevice,
@@ -439,7 +440,7 @@ impl FatVolume {
                                 let entry = DirEntry::new(
                                     name,
                                     attributes,
-                                    ClusterId::EMPTY,
+                                    first_cluster,
                                     ctime,
                                     block_idx,
                                     (i * OnDiskDirEntry::LEN) as u32,
@@ -502,7 +503,7 @@ impl FatVolume {
                                 let entry = DirEntry::new(
                                     name,
                                     attributes,
-                                    ClusterId(0),
+                                    first_cluster,
                                     ctime,
                                     block_idx,
                                     (i * OnDiskDirEntry::LEN) as u32,
@@ -1319,15 +1320,12 @@ impl FatVolume {
         D: BlockDevice,
         T: TimeSource,
     {
-        let mut new_dir_entry_in_parent =
-            self.write_new_directory_entry(block_cache, time_source, parent, sfn, att)?;
-        if new_dir_entry_in_parent.cluster == ClusterId::EMPTY {
-            new_dir_entry_in_parent.cluster = self.alloc_cluster(block_cache, None, false)?;
-            // update the parent dir with the cluster of the new dir
-            self.write_entry_to_disk(block_cache, &new_dir_entry_in_parent)?;
-        }
-        let new_dir_start_block = self.cluster_to_block(new_dir_entry_in_parent.cluster);
-        debug!("Made new dir entry {:?}", new_dir_entry_in_parent);
+        // Allocate and fill in the new directory's cluster before anything
+        // refers to it, so the parent never points at an unallocated or
+        // uninitialised cluster (and nothing is left behind in the parent if
+        // the volume is full).
+        let new_dir_cluster = self.alloc_cluster(block_cache, None, false)?;
+        let new_dir_start_block = self.cluster_to_block(new_dir_cluster);
         let now = time_source.get_timestamp();
         let fat_type = self.get_fat_type();
         // A blank block
@@ -1339,7 +1337,7 @@ impl FatVolume {
             ctime: now,
             attributes: att,
             // point at ourselves
-            cluster: new_dir_entry_in_parent.cluster,
+            cluster: new_dir_cluster,
             size: 0,
             entry_block: new_dir_start_block,
             entry_offset: 0,
@@ -1380,7 +1378,25 @@ impl FatVolume {
             block_cache.write_back()?;
         }
 
-        Ok(())
+        // Now it is safe to create the entry in the parent
+        match self.write_new_directory_entry(
+            block_cache,
+            time_source,
+            parent,
+            sfn,
+            att,
+            new_dir_cluster,
+        ) {
+            Ok(_new_dir_entry_in_parent) => {
+                debug!("Made new dir entry {:?}", _new_dir_entry_in_parent);
+                Ok(())
+            }
+            Err(e) => {
+                // No room for the entry: give the cluster back
+                let _ = self.free_cluster_chain(block_cache, new_dir_cluster);
+                Err(e)
+            }
+        }
     }
 }
 
